@@ -54,6 +54,63 @@ def ProxySocket_onUpstreamError (env : Env) (s : Proxy.St) : Proxy.St :=
       s
   s
 
+/-- `ProxySocket::onUpstreamConnected` -/
+def ProxySocket_onUpstreamConnected (c : Proxy.Cfg) (s : Proxy.St) (fuel : Nat) : Proxy.St :=
+  let target : Bytes := (([47] : Bytes) ++ (pctEncode Proxy.pathKeep c.path))
+  let rawPath : Bytes := s.sock.rawPath
+  let queryIndex : Int := (Cxx.indexOf rawPath ([63] : Bytes))
+  let target :=
+    if (decide (queryIndex ≠ (-(1 : Int)))) then
+      let target : Bytes := (target ++ (pctEncode Proxy.queryKeep (Cxx.mid rawPath queryIndex (-1))))
+      target
+    else
+      target
+  let s := Px.upWrite s ((((Proxy.methodToString ((s.sock.method : Nat) : Int).toNat) ++ ([32] : Bytes)) ++ target) ++ ([32, 72, 84, 84, 80, 47, 49, 46, 49, 13, 10] : Bytes))
+  let headers : HeaderMap := s.sock.reqHeaders
+  let peerIP : Bytes := c.peerIP
+  let fwd : List Bytes := (HeaderMap.values ([88, 45, 70, 111, 114, 119, 97, 114, 100, 101, 100, 45, 70, 111, 114] : Bytes) headers)
+  let headers :=
+    if (fwd.isEmpty) then
+      let headers : HeaderMap := (HeaderMap.insert ([88, 45, 70, 111, 114, 119, 97, 114, 100, 101, 100, 45, 70, 111, 114] : Bytes) peerIP headers)
+      headers
+    else
+      let combined : Bytes := []
+      let i : Int := ((Cxx.count fwd) - (1 : Int))
+      let rec go1 (fuel : Nat) (combined : Bytes) (i : Int) : Option Unit × Bytes × Int :=
+        match fuel with
+        | 0 => (none, combined, i)
+        | fuel + 1 =>
+          if (decide (i ≥ (0 : Int))) then
+            let combined : Bytes := (combined ++ ((Cxx.nth fwd i) ++ ([44, 32] : Bytes)))
+            let i : Int := (i - 1)
+            go1 fuel combined i
+          else
+            (none, combined, i)
+      match go1 fuel combined i with
+      | (_, combined, i) =>
+        let headers : HeaderMap := (HeaderMap.remove ([88, 45, 70, 111, 114, 119, 97, 114, 100, 101, 100, 45, 70, 111, 114] : Bytes) headers)
+        let headers : HeaderMap := (HeaderMap.insert ([88, 45, 70, 111, 114, 119, 97, 114, 100, 101, 100, 45, 70, 111, 114] : Bytes) (combined ++ peerIP) headers)
+        headers
+  let headers :=
+    if (!(HeaderMap.contains ([88, 45, 82, 101, 97, 108, 45, 73, 80] : Bytes) headers)) then
+      let headers : HeaderMap := (HeaderMap.insert ([88, 45, 82, 101, 97, 108, 45, 73, 80] : Bytes) peerIP headers)
+      headers
+    else
+      headers
+  let s := headers.foldl (fun s e =>
+      let s := Px.upWrite s (((e.1 ++ ([58, 32] : Bytes)) ++ e.2) ++ ([13, 10] : Bytes))
+      s) s
+  let s := Px.upWrite s ([13, 10] : Bytes)
+  let s := { s with headersWritten := true }
+  let s :=
+    if (decide ((Cxx.size s.buf) ≠ 0)) then
+      let s := Px.upWrite s s.buf
+      let s := { s with buf := ([] : Bytes) }
+      s
+    else
+      s
+  s
+
 end QhttpGen.Proxy
 
 macro "unfold_proxy_helpers" : tactic => `(tactic| skip)
